@@ -936,3 +936,19 @@ def trace_generated_text(ctx: Ctx, mod, fn, _depth=0, bindings=None):
             continue
         problems.append(f"returns something other than the (formatted) generator output: {norm(r.value)[:100]}")
     return {"problems": problems, "wrappers": wrappers, "expose": expose}
+
+
+def rule_exhaustive_predicates(ctx: Ctx, rid="C02.TRANSLATION-EXHAUSTIVE", max_leaves=4, kinds=("translation", "compile")):
+    """Thorough tier: EVERY predicate token sequence with up to 4 comparisons (binary and/or, prefix not, optional
+    parentheses) in both layouts, in parallel worker processes."""
+    from pyab_static.exhaustive import sweep
+    total, fails = sweep(ctx.rep.root, max_leaves)
+    fails = [f for f in fails if f[1] in kinds]
+    con = f"{GEN}:PythonCodeGen._generate_predicate[all predicates with <= {max_leaves} comparisons]"
+    ctx.rep.extra["exhaustive_predicate_instances"] = total
+    if fails:
+        for label, kind, detail in fails[:5]:
+            ctx.rep.bad(rid, con + f" <- {label}", f"{kind}: {detail}", text=f"{label}|{kind}|{detail[:80]}")
+    else:
+        ctx.rep.ok(rid, con, f"{total} template instances (every predicate shape x 2 layouts) equal the reference reading")
+    ctx.rep.floor("exhaustive predicate instances", total, 40000 if max_leaves >= 4 else 1000)
